@@ -57,6 +57,8 @@ def _run(fault, size, kf, cb, fk, fi, c1, b1, c2, b2, c3, b3, fin, rx, tag):
                         itF.release(b)
                 elif c == 2:
                     itF.cancel(b)
+                elif c == 4:
+                    itF.release(b, value=RuntimeError("returned, not raised"))
                 w.settle(); obs()
                 if k == 1:
                     L = itS.apply(2, args=("L",))
@@ -121,13 +123,13 @@ def tpl_fault(size, kf, cb, fk, fi, c1, b1, c2, b2, c3, b3, fin, rx, _twin=False
 def families(tier):
     thorough = tier == "thorough"
     P = ["size", "kf", "cb", "fk", "fi", "c1", "b1", "c2", "b2", "c3", "b3", "fin", "rx"]
-    pre = ["1 <= size <= 3", "0 <= kf <= 2", "kf <= 1 or fk == 1", "1 <= cb <= 2", "0 <= fk <= 3", "0 <= fi <= 2", "0 <= c1 <= 3", "b1 >= 0", "0 <= c2 <= 3", "b2 >= 0",
-           "0 <= c3 <= 3", "b3 >= 0", "0 <= fin <= 1", "0 <= rx <= 1"]
+    pre = ["1 <= size <= 3", "0 <= kf <= 2", "kf <= 1 or fk == 1", "1 <= cb <= 2", "0 <= fk <= 3", "0 <= fi <= 2", "0 <= c1 <= 4", "b1 >= 0", "0 <= c2 <= 4", "b2 >= 0",
+           "0 <= c3 <= 4", "b3 >= 0", "0 <= fin <= 1", "0 <= rx <= 1"]
     if not thorough:
-        pre += ["c3 == 3", "b3 == 0", "b1 <= 1", "b2 <= 1", "fi == 0", "size == 2", "cb == 2", "1 <= c2 <= 2", "c1 <= 2"]
+        pre += ["c3 == 3", "b3 == 0", "b1 <= 1", "b2 <= 1", "fi == 0", "size == 2", "cb == 2", "1 <= c2 <= 2 or c2 == 4", "c1 <= 2"]
         parts = parts_product(kf=(0, 1), fk=range(4), c1=range(3), fin=(0, 1)) + parts_product(kf=(2,), fk=(1,), c1=range(3), fin=(0, 1))
     else:
-        pre += ["c3 == 3", "b3 == 0", "b1 <= 1", "b2 <= 1", "fi <= 1", "1 <= c2 <= 2", "c1 <= 2"]
+        pre += ["c3 == 3", "b3 == 0", "b1 <= 1", "b2 <= 1", "fi <= 1", "1 <= c2 <= 2 or c2 == 4", "c1 <= 2 or c1 == 4"]
         parts = parts_product(kf=(0, 1), cb=(1, 2), fk=range(4), c1=range(3), fin=(0, 1), size=(1, 2, 3)) + \
             parts_product(kf=(2,), cb=(1, 2), fk=(1,), c1=range(3), fin=(0, 1), size=(1, 2, 3))
     return [Family(name="fault", fn="tpl_fault", params=P, pre=pre, parts=parts,
